@@ -298,6 +298,10 @@ def hand_schedules():
         ('no-tiers', 6, _ops(c1, c1, c1, 'press', c1, 'press', c2, c2, c2)),
         ('half-dollar-unit', 8, _ops(c1, c2, c2, c1, 'event', 'press', 'press', 'press', c2, c2, c2)),
         ('reset', 5, _ops(c2, c1, 'reset', c1, c2, c2)),
+        # the tier progress is reset when player 1 starts ball 2, not when player 2 does
+        ('ball2-reset-only-player1', 2, _ops(c2, c2, 'press', 'press', 'drain', 'drain', c2, 'drain', c2, 'drain', 'drain', c1)),
+        # ... and again in the next game (the once-per-game flag is cleared at game end)
+        ('ball2-reset-second-game', 2, _ops('service', 'service', 'press', 'drain', 'drain', 'press', c2, 'drain', c2, c2, 'drain')),
     ]
 
 
@@ -317,7 +321,7 @@ def run(ctx):
     # the code-as-is cap (Deviation CapOverwritten) must break Bounds in the model; its counterexample is a schedule
     with open(wd + '/MCcap.cfg', 'w') as f:
         f.write(MC_CFG % ('MCDevCap', 2, 6, 1000, BALLS_PER_GAME, 'MCOps', 'INVARIANT Bounds\n'))
-    rc = tlc.check(wd, 'CreditsMC', 'MCcap.cfg', timeout=3000)
+    rc = tlc.check(wd, 'CreditsMC', 'MCcap.cfg', workers=1, timeout=3000)      # 1 worker: deterministic counterexample
     ctx.add_tlc('CreditsMC code-as-is cap', rc, {'Deviations': ['CapOverwritten'], 'MaxOps': 6})
     jobs = []
     labels = []
@@ -352,7 +356,7 @@ def run(ctx):
     for name, _ in [('TDev0', ())] + DEV_SETS:
         with open(wd + '/Trace_%s.cfg' % name, 'w') as f:
             f.write(TRACE_CFG % (name, BALLS_PER_GAME))
-    v = tlc.validate_traces(wd, 'CreditsTrace', 'Trace_TDev0.cfg', traces)
+    v = tlc.validate_traces(wd, 'CreditsTrace', 'Trace_TDev0.cfg', traces, batch=1000)
     ctx.add_trace_verdict('CreditsTrace', v, len(traces))
     ctx.coverage['configs_exercised'] = sorted({j[1] for j in jobs})
     ctx.coverage['ops_executed'] = sum(len(t['ev']) for t in traces)
@@ -366,7 +370,7 @@ def run(ctx):
         if not todo:
             break
         vd = tlc.validate_traces(wd, 'CreditsTrace', 'Trace_%s.cfg' % name, [traces[i] for i in todo],
-                                 diagnose=(name == 'TDevAll'))
+                                 diagnose=(name == 'TDevAll'), batch=1000)
         ctx.log('classification with %s: %d of %d rejected traces explained' % (name, len(vd.accepted), len(todo)))
         for k in sorted(vd.accepted):
             explained[todo[k]] = devs
@@ -376,6 +380,8 @@ def run(ctx):
     ctx.coverage['rejected_by_intended_model'] = len(rej)
     ctx.coverage['rejected_explained_by_deviation'] = {
         '+'.join(d): sum(1 for x in explained.values() if x == d) for d in sorted(set(explained.values()))}
+    undiagnosed = []
+    n_unexplained = 0
     for i in rej:
         info = v.rejected[i]
         fe = info.get('failing_event') or {}
@@ -388,12 +394,22 @@ def run(ctx):
             k = last_ids.index(i) if i in last_ids else None
             inf2 = last.rejected.get(k, {}) if k is not None else {}
             fe2 = inf2.get('failing_event') or fe
+            if not fe2:
+                undiagnosed.append(i)       # only the first few rejected traces of a batch are diagnosed line by line
+                continue
+            n_unexplained += 1
             rd['info_all_deviations'] = inf2
             ctx.violation('C20:unexplained:%s' % (fe2.get('during') if fe2.get('op') == 'crash' else fe2.get('op', '?')),
                           'credits execution not explained by the Credits spec (nor by the known deviations) at line %s: %s '
                           '(prev %s; schedule %s; cfg %s)%s' % (
                               inf2.get('line', info.get('line')), fe2, inf2.get('prev_event', info.get('prev_event')), labels[i],
                               cfg_rec(BY_ID[jobs[i][1]]), ('\n' + traces[i]['_tb']) if '_tb' in traces[i] else ''), rd)
+    if undiagnosed and not n_unexplained:
+        i = undiagnosed[0]
+        ctx.violation('C20:unexplained:undiagnosed', 'credits execution not explained by the Credits spec (schedule %s; cfg %s)' % (
+            labels[i], cfg_rec(BY_ID[jobs[i][1]])),
+            {'cid': jobs[i][1], 'sched': jobs[i][2], 'label': labels[i], 'trace': traces[i], 'info': v.rejected[i]})
+    ctx.coverage['rejected_unexplained'] = n_unexplained + len(undiagnosed)
     ctx.assumptions += [
         'real credits mode + real attract/game modes; ball handling faked (balls_in_play set to 0 to drain), %d balls per game' % BALLS_PER_GAME,
         'one machine boot per schedule; virtual time, one abstract time unit = %d ms' % U_MS,
